@@ -241,3 +241,22 @@ fn nested_structs(rng: &mut Rng) -> String {
     out.push_str(&format!("    return old + copy.two[1].sum() + r.sum() + (p.flag ? v : ({})q.s) + gs.one.v;\n}}\n", t));
     out
 }
+
+/// expression functions with the forms `c01/vgen.rs` (pure mode) does not produce: swizzles of scalars (the scalar half of
+/// the Swizzle arm), `%` on float vectors (`metal::fmod`), narrowing casts of expressions
+pub fn vex_extra(rng: &mut Rng) -> String {
+    let k = *rng.pick(&KINDS);
+    let n = 2 + rng.below(3) as usize;
+    let m = 2 + rng.below(3) as usize;
+    let op = if k == "float" { *rng.pick(&["+", "-", "*", "/", "%"]) } else { *rng.pick(&["+", "-", "*", "%", "&", "|", "<<", ">>"]) };
+    let rep = |len: usize| "x".repeat(len);
+    let e = match rng.below(6) {
+        0 => format!("s.{} {} ({})v", rep(n), op, vt(k, n)),
+        1 => format!("(({})v.{}) {} s.{}", vt(k, n), swz(rng, m, m), op, rep(n)),
+        2 => format!("({})(v.{} {} s.{})", vt(k, n), swz(rng, m, 4), op, rep(4)),
+        3 => format!("b ? s.{} : ({})(({})v)", rep(n), vt(k, n), k),
+        4 => format!("{}(s.x, ({})v.{})", vt(k, n), vt(k, n - 1), swz(rng, m, n - 1)),
+        _ => format!("s.{}.{} {} ({})({})v", rep(4), swz(rng, 4, n), op, vt(k, n), vt(if k == "float" { "int" } else { "float" }, n.min(m))),
+    };
+    format!("{} f1({} s, {} v, bool b)\n{{\n    return {};\n}}\n", vt(k, n), k, vt(k, m), e)
+}
